@@ -395,6 +395,45 @@ def r1(ctx: Ctx, sc: Schema, enum_pairs: dict[str, set[tuple[str, str]]]) -> Non
     ctx.count("C14.R1", judged, 29, "model/wire enum pairs")
 
 
+def _field_enumerator(ctx: Ctx, fn: Func, call: ast.Call) -> str:
+    """'' when `call` enumerates the dataclass fields of its argument, else the reason it is not recognised."""
+    MEMO = ("cache", "functools.cache", "lru_cache", "functools.lru_cache")
+
+    def is_memo(e: ast.expr) -> bool:
+        return norm(e) in MEMO or (isinstance(e, ast.Call) and norm(e.func) in MEMO and not e.args)
+
+    def is_fields(e: ast.expr) -> bool:
+        return norm(e) in ("fields", "dataclasses.fields")
+
+    f = call.func
+    if len(call.args) != 1 or call.keywords:
+        return "expected one argument, the class"
+    if is_fields(f):
+        return ""
+    if not isinstance(f, ast.Name):
+        return "enumerator not recognised"
+    for st in fn.module.tree.body:
+        if isinstance(st, ast.Assign) and any(isinstance(t, ast.Name) and t.id == f.id for t in st.targets):
+            v = st.value
+            if isinstance(v, ast.Call) and is_memo(v.func) and len(v.args) == 1 and is_fields(v.args[0]):
+                return ""
+            if is_fields(v):
+                return ""
+            return f"`{f.id} = {norm(v)[:40]}` is not dataclasses.fields under a cache keyed by the class"
+        if isinstance(st, (ast.FunctionDef,)) and st.name == f.id:
+            if not all(is_memo(d) for d in st.decorator_list):
+                return f"decorators of {f.id}"
+            par = [a.arg for a in st.args.args]
+            rets = [n for n in ast.walk(st) if isinstance(n, ast.Return)]
+            body = [b for b in st.body if not (isinstance(b, ast.Expr) and isinstance(b.value, ast.Constant))]
+            ok = len(par) == 1 and len(body) == 1 and len(rets) == 1 and rets[0] is body[0] and isinstance(rets[0].value, ast.Call) and (
+                (is_fields(rets[0].value.func) and [norm(a) for a in rets[0].value.args] == par)
+                or (norm(rets[0].value.func) == "tuple" and len(rets[0].value.args) == 1 and isinstance(rets[0].value.args[0], ast.Call) and is_fields(rets[0].value.args[0].func) and [norm(a) for a in rets[0].value.args[0].args] == par)
+            )
+            return "" if ok else f"{f.id}() keeps its own memo: the answer for a class may be that of another (an attribute stored on the class is inherited by its subclasses)"
+    return f"{f.id} not found at module level"
+
+
 # ----------------------------------------------------------------- shapes
 def shapes(ctx: Ctx) -> None:
     base = ctx.repo.cls("APIIntEnum")
@@ -427,6 +466,21 @@ def shapes(ctx: Ctx) -> None:
                 and "cls" in norm(g.iter)
             )
     ctx.ob("C14.R3", fp, "from_pb copies every dataclass field by its own name", ok, "expected {f.name: getattr(data, f.name) for f in fields(cls)} with no filter")
+
+    # the field list of a model is that of the class asked about: `dataclasses.fields`, called directly or memoised by
+    # a cache keyed by the class object.  (A memo kept as a class attribute is inherited: once a base model has been
+    # used, its subclasses would be converted with the base's fields only.)
+    enum_bad = []
+    n_enum = 0
+    for m_ in mb.methods.values():
+        for n in own_nodes(m_.node):
+            it = n.iter if isinstance(n, (ast.For, ast.comprehension)) else None
+            if isinstance(it, ast.Call) and "fields" in norm(it.func):
+                n_enum += 1
+                why = _field_enumerator(ctx, m_, it)
+                if why:
+                    enum_bad.append(f"{m_.qualname} L{it.lineno} {norm(it)[:40]}: {why}")
+    ctx.ob("C14.R3", mb.key if hasattr(mb, "key") else fp, f"the fields of a model are enumerated by dataclasses.fields of that very class ({n_enum} loops)", not enum_bad and n_enum >= 1, f"{enum_bad[:2]}")
 
     pi = mb.methods.get("__post_init__")
     ctx.require(pi is not None, "APIModelBase.__post_init__ missing")
